@@ -623,6 +623,18 @@ let judge _id (c : cursor) (r : cursor) : bool * string =
         let pid = o_radix spS (il (List.nth ps.psFeatures aid)) s in
         p := q_mul !p tsA.(f).(start + pid).(s1.(f))
       done; !p in
+    (* O: the constructor accepts exactly the models whose every table row (all getSize(i) rows of
+       every node) is a probability vector *)
+    let verdict = next r in
+    let row_ok n row = let row = List.filteri (fun i _ -> i < n) row in
+      List.for_all (fun x -> q_le q_zero x) row && q_le (q_abs (q_sub (q_sum row) q_one)) (q_of_ints 1 1000000) in
+    let all_ok = List.for_all2 (fun ps (i, m) ->
+        let nrows = List.fold_left (fun acc t -> acc + fsize spS (il t)) 0 ps.psFeatures in
+        List.length m = nrows && List.for_all (fun row -> List.length row = spS.(i) && row_ok spS.(i) row) m)
+        pss (List.mapi (fun i m -> (i, m)) ts) in
+    if (verdict = "ok") <> all_ok then oracle_fail "cmodel_validates_rows" "CooperativeModel::CooperativeModel" ("constructor answered " ^ verdict);
+    if tables_are_probabilities g ts <> (verdict = "ok") then disagree "tables_are_probabilities" "CooperativeModel::CooperativeModel" "differ";
+    if verdict <> "ok" then (true, "cmodel_rejected") else begin
     let nq = next_int c in
     for _q = 1 to nq do
       let s = next_nats c in let a = next_nats c in
@@ -655,9 +667,14 @@ let judge _id (c : cursor) (r : cursor) : bool * string =
           if not (q_eq er flat) then oracle_fail "sampleSRs_rewards_flat" "CooperativeModel::getExpectedReward" "expected reward is not the flat reward";
           if not (q_eq er (expectedReward sS sA rewards s a)) then disagree "expectedReward" "CooperativeModel::getExpectedReward" "differ"
         end
-      done
+      done;
+      (* O: an accepted model's joint next-state distribution is the product form and sums to one *)
+      let probs = next_qs r in
+      let xs = all_assignments sS in
+      List.iter2 (fun s1 p -> if not (q_eq p (o_prob sa aa s1)) then oracle_fail "ddn_product" "CooperativeModel::getTransitionProbability" "not the product of the local probabilities") xs probs;
+      if not (q_eq (q_sum probs) q_one) then oracle_fail "ddn_sums_to_one" "CooperativeModel::getTransitionProbability" ("accepted model's probabilities sum to " ^ string_of_q (q_sum probs))
     done;
-    (List.length rewards > 0 && nq > 0, "cmodel")
+    (List.length rewards > 0 && nq > 0, "cmodel") end
   | "sparse" ->
     let sS = next_nats c in let sA = next_nats c in
     let rules0 = next_list c (fun c -> let sk = next_nats c in let sv = next_nats c in let ak = next_nats c in let av = next_nats c in
@@ -691,6 +708,19 @@ let judge _id (c : cursor) (r : cursor) : bool * string =
     let i_flat = read_mat r in
     if table && not (mat_eq !flat i_flat) then disagree "ql_step" "QLearning::stepUpdateQ" "flat Q differs";
     (List.length hist > 1, if table then "sparse_table" else "sparse_rules")
+  | "subop2d" ->
+    let sS = next_nats c in let sA = next_nats c in let l = read_bm c in let rr = read_bm c in
+    let i_fm = read_fm r in
+    let spS = Array.of_list (il sS) and spA = Array.of_list (il sA) in
+    let pairs = List.concat_map (fun s -> List.map (fun a -> (s, a)) (all_assignments sA)) (all_assignments sS) in
+    let m = plusEqualSubset2D sS sA l rr in
+    List.iter (fun (b : bm) ->
+        List.iter (fun (s, a) ->
+            let expect = q_add (o_bm_value spS spA l s a) (o_bm_value spS spA rr s a) in
+            if not (q_eq (o_bm_value spS spA b s a) expect) then
+              oracle_fail "plus_flat_2d" "plusEqualSubset2D" ("at (" ^ str_ints (Array.to_list s) ^ " | " ^ str_ints (Array.to_list a) ^ ") value differs from the pointwise sum")) pairs;
+        if not (bm_eq m b) then disagree "plusEqualSubset2D" "plusEqualSubset2D" "differ") i_fm;
+    (List.length l.bmActionTag > List.length rr.bmActionTag || List.length l.bmTag > List.length rr.bmTag, "subop2d")
   | k -> failwith ("unknown case kind " ^ k)
 
 let () = main_loop judge
